@@ -781,8 +781,13 @@ def bytecode_projects(seed, n):
         mids = ["m%d" % i for i in range(k)]
         uses = {}
         for i, m in enumerate(mids):
-            use = [sh for sh in shared if rnd.random() < 0.8] or [shared[0]]
-            uses[m] = use
+            uses[m] = [sh for sh in shared if rnd.random() < 0.8] or [shared[0]]
+        for j, sh in enumerate(shared):
+            # every shared module is imported by at least one middle (otherwise nothing reaches it)
+            if not any(sh in u for u in uses.values()):
+                uses[mids[j % k]].append(sh)
+        for i, m in enumerate(mids):
+            use = uses[m]
             imp_mid = mids[i - 1] if (nested_mid and i == k - 1 and k >= 2) else None
             src = "needs std.io\n" + "".join(f"needs {sh}\n" for sh in use) + (f"needs {imp_mid}\n" if imp_mid else "")
             src += f'io.println("I:{m}")\n'
@@ -813,12 +818,30 @@ def bytecode_projects(seed, n):
     return out
 
 
+def bytecode_reachable(proj):
+    """the modules main reaches through the `needs` lines of the project's own files"""
+    seen, todo = set(), ["main"]
+    while todo:
+        m = todo.pop()
+        if m in seen or m + ".aelys" not in proj["files"]:
+            continue
+        seen.add(m)
+        for l in proj["files"][m + ".aelys"].splitlines():
+            w = l.split()
+            if len(w) >= 2 and w[0] == "needs" and not w[1].startswith("std."):
+                todo.append(w[1])
+    return sorted(seen)
+
+
 def bytecode_oracle(proj, out):
     """the property on one run's output"""
     lines = out.splitlines()
     tags = collections.Counter(l[2:] for l in lines if l.startswith("I:"))
     fails = []
-    for m in proj["modules"]:
+    for m, c in tags.items():
+        if m not in bytecode_reachable(proj):
+            fails.append(("bytecode:init-of-unreachable", f"module {m} ran although main does not reach it"))
+    for m in bytecode_reachable(proj):
         if tags.get(m, 0) != 1:
             fails.append(("bytecode:double-init" if tags.get(m, 0) > 1 else "bytecode:missing-init",
                           f"module {m} initialised {tags.get(m, 0)} times in one run"))
